@@ -69,9 +69,11 @@ class Check(PropertyCheck):
                 "C30_valid_iff_hash_equal", "C30_valid_unrecorded", "C30_content_hash_only_bytes",
                 "C30_contentdir_refuted_as_shipped", "C30_calc_raises_only_missing_contentfile",
                 "C30_missing_path_hash_total", "C30_contentfile_missing_refuted_as_shipped",
-                "C30_sorted_hashes_canonical", "C30_nonvacuous"]
+                "C30_sorted_hashes_canonical", "C30_dir_hash_is_over_the_listing", "C30_dir_hash_covers_listing",
+                "C30_refuted_walk_skipping_subdirectory", "C30_nonvacuous"]
     allowed_axioms = []
-    section_premises = ["(refutations only) the hash function has no collisions: forall a b, H a = H b -> a = b"]
+    section_premises = ["(refutations and C30_dir_hash_covers_listing) the hash function has no collisions: "
+                        "forall a b, H a = H b -> a = b"]
     assumptions = [
         "local filesystem; paths where directory names and file names are disjoint (no path is both), no symlinks; "
         "directories are implicit (exist as far as files lie below them)",
@@ -79,7 +81,10 @@ class Check(PropertyCheck):
         "the mtime the OS gives a written file is an input of the model's operation (taken from os.stat after the real "
         "operation); hashes are compared by equality pattern (truncated SHA-512 and the model's injective stand-in "
         "are both assumed collision free)",
-        "copy_to(skip_if_exists=True), rmdir(recursive=False), overlapping directory copies and remote filesystems "
+        "symbolic links are outside the Coq model; trees with links are judged on the implementation only (members = "
+        "what iterating the value yields); the model's Dir hash is over the listing, tied by the translator's check "
+        "that LocalFileSystem inherits the generic iter_file_hashes (C30_dir_hash_covers_listing for any covering walk)",
+                "copy_to(skip_if_exists=True), rmdir(recursive=False), overlapping directory copies and remote filesystems "
         "are outside the model (RUnmodelled / not generated)",
     ]
     rule = ("random and scripted sequences of ONew/hash/update_hash/is_valid/write/append/remove/touch/copy_to/"
@@ -235,10 +240,33 @@ class Check(PropertyCheck):
                                                          "step": idx, "expect_key": key, "what": what}))
         self.evaluations += nsteps
         self.stat("oracle", "traces", len(runs))
+        # trees with symbolic links (outside the Coq model): every file that iterating a Dir / FileSet yields must
+        # contribute to its hash -- mutate each yielded member in turn; and hashes are fresh after copy / stage / write
+        nlink = 0
+        for pop, value, member, how, failure in fv.tree_checks():
+            nlink += 1
+            self.stat("symlink_tree", f"{pop}:{value[0]}({value[3]})")
+            if failure:
+                key = f"symlink-tree:member-not-in-hash:{value[0]}({value[3]}):{pop}"
+                if key not in keys:
+                    keys.add(key)
+                    self.findings.append(Finding(key, failure, {"kind": "members", "population": pop, "value": list(value),
+                                                                "member": member, "mutation": how, "what": failure}))
+        for pop, what, failure in fv.tree_fresh_checks():
+            nlink += 1
+            if failure:
+                key = f"symlink-tree:stale-after:{what}:{pop}"
+                if key not in keys:
+                    keys.add(key)
+                    self.findings.append(Finding(key, failure, {"kind": "tree-fresh", "population": pop, "what": failure}))
+        self.evaluations += nlink
+        self.stat("oracle", "symlink_tree_member_mutations", nlink)
         self.stat("oracle", "steps_judged", nsteps)
         self.ob("oracle", f"implementation oracle ran on {len(runs)} sequences / {nsteps} steps (fresh after "
                 "write/copy/stage; is_valid <-> recorded == current; content hash depends on bytes only; missing "
-                "path hashes without raising, deterministically)", True)
+                f"path hashes without raising, deterministically) and on {nlink} member mutations / copies in trees with "
+                "symlinked sub-directories, symlinked files, nested and broken links (every listed member contributes "
+                "to the hash; hashes fresh after copy_to / stage / write)", True)
         # the variant the translator reports must agree with what the witnesses do on the real code
         if self.variant is not None:
             for key, site in SITE_OF.items():
@@ -249,6 +277,18 @@ class Check(PropertyCheck):
     # ------------------------------------------------------------------ replay
     def replay(self, doc):
         r = doc.get("replay", {})
+        if r.get("kind") == "members":
+            with fv.tempcwd("rv_fvl_"):
+                fv.build_population(r["population"])
+                print("   tree:", fv.POPULATIONS[r["population"]])
+                print("   listed members:", sorted(f.path for f in fv.tree_value(*r["value"])))
+                failure = fv.check_member(r["population"], tuple(r["value"]), r["member"], r["mutation"])
+            print("replay:", ("still fails: " + failure) if failure else "the property holds on this tree now")
+            return 1 if failure else 0
+        if r.get("kind") == "tree-fresh":
+            bad = [x for x in fv.tree_fresh_checks() if x[0] == r["population"] and x[2]]
+            print("replay:", ("still fails: %s" % (bad[0],)) if bad else "the property holds on this tree now")
+            return 1 if bad else 0
         if r.get("kind") == "trace":
             ops = eval(r["ops"])
             run = fv.run_trace(ops)
